@@ -15,9 +15,8 @@ External raise sets (trusted):
       (CPython 3.12: a NUL byte is a SyntaxError, no longer a ValueError; lone surrogates -- the other ValueError
        source -- cannot occur in text decoded from UTF-8, which is the only way file content reaches ast.parse.)
 
-Known findings C11-ast-parse-recursion / C11-ast-parse-memory: every Python-parsing helper contains SyntaxError only;
-RecursionError / MemoryError from ast.parse (a 2995-term `1+1+...` expression; 50000 unary minus signs) escape into
-Orchestrator._safe_check_rule, which logs and returns [] -- 14 rules abandon their analysis, exit code 0."""
+All three classes of ast.parse are contained by every parsing helper under contract (raise set []); see the `fixed`
+list of known_findings.json for the repaired defect C11-ast-parse-limits."""
 import ast
 
 import z3
@@ -69,7 +68,6 @@ def _x_ast_parse(ex, args, kwargs, lineno):
     return VNode(n, PyNode)
 
 
-PARSER_LIMITS = ("RecursionError", "MemoryError")
 
 # ================================================================== orchestrator: reading the file
 O = "src/orchestrator/core.py::"
@@ -178,11 +176,12 @@ class ReadFileFirstLines:
         return len(result) <= 10
 
 
-# ================================================================== Python parsing helpers: SyntaxError is contained ...
-# ... RecursionError / MemoryError of ast.parse are NOT (known findings C11-ast-parse-recursion / -memory): they reach
-# Orchestrator._safe_check_rule, which drops the rule's analysis for that file and reports success.
-# Clause `on_raise_no_analysis_is_abandoned` is the property's wording (no exception leaves the parsing helper, so no
-# rule fails internally on unparsable input); `on_raise_only_parser_resource_limits` is the finding-adjusted clause.
+# ================================================================== Python parsing helpers: every ast.parse failure is contained
+# SyntaxError AND the parser's resource-limit errors (RecursionError "maximum recursion depth exceeded during ast
+# construction", MemoryError "Parser stack overflowed") are handled alike: the helper returns the syntax-error notice /
+# None / [] and never lets an exception reach Orchestrator._safe_check_rule (raise set [] -- exact).
+# (Until the fix: commit recorded in known_findings.json `fixed` the two resource-limit classes escaped and 14 rules
+# silently abandoned their analysis of such a file.)
 LU = "src/core/linter_utils.py::"
 SEBuilderT = Rec("SyntaxErrorViolationBuilder", cls=LU + "SyntaxErrorViolationBuilder")
 
@@ -197,69 +196,57 @@ class ProtoCreateSyntaxError:
 
 
 @contract(LU + "parse_python_ast", props=["C11"], types=dict(context=CtxT, violation_builder=SEBuilderT),
-          returns=TupleOf(PyNode, SeqOf(ViolationT)), raises=list(PARSER_LIMITS))
+          returns=TupleOf(PyNode, SeqOf(ViolationT)), raises=[])
 class ParsePythonAst:
-    def on_raise_no_analysis_is_abandoned(exc_class):
-        return False
-
-    def on_raise_only_parser_resource_limits(exc_class):
-        return exc_class in PARSER_LIMITS
+    def ensures_total(result):
+        # raise set [] is exact: SyntaxError, RecursionError and MemoryError of ast.parse are all contained
+        return True
 
     def ensures_tree_or_one_syntax_error_notice(result):
         return (result[0] is not None) == (len(result[1]) == 0) and len(result[1]) <= 1
 
 
 @contract("src/linters/print_statements/linter.py::PrintStatementRule._parse_python_code", props=["C11"],
-          types=dict(code=Opt(Str)), returns=PyNode, raises=list(PARSER_LIMITS))
+          types=dict(code=Opt(Str)), returns=PyNode, raises=[])
 class PrintParsePythonCode:
-    def on_raise_no_analysis_is_abandoned(exc_class):
-        return False
-
-    def on_raise_only_parser_resource_limits(exc_class):
-        return exc_class in PARSER_LIMITS
+    def ensures_total(result):
+        # raise set [] is exact: SyntaxError, RecursionError and MemoryError of ast.parse are all contained
+        return True
 
 
 @contract("src/linters/print_statements/conditional_verbose_rule.py::ConditionalVerboseRule._parse_python_code",
-          props=["C11"], types=dict(code=Opt(Str)), returns=PyNode, raises=list(PARSER_LIMITS))
+          props=["C11"], types=dict(code=Opt(Str)), returns=PyNode, raises=[])
 class VerboseParsePythonCode:
-    def on_raise_no_analysis_is_abandoned(exc_class):
-        return False
-
-    def on_raise_only_parser_resource_limits(exc_class):
-        return exc_class in PARSER_LIMITS
+    def ensures_total(result):
+        # raise set [] is exact: SyntaxError, RecursionError and MemoryError of ast.parse are all contained
+        return True
 
 
 @contract("src/linters/method_property/linter.py::MethodPropertyRule._parse_python_code", props=["C11"],
-          types=dict(code=Opt(Str)), returns=PyNode, raises=list(PARSER_LIMITS))
+          types=dict(code=Opt(Str)), returns=PyNode, raises=[])
 class MethodPropertyParsePythonCode:
-    def on_raise_no_analysis_is_abandoned(exc_class):
-        return False
-
-    def on_raise_only_parser_resource_limits(exc_class):
-        return exc_class in PARSER_LIMITS
+    def ensures_total(result):
+        # raise set [] is exact: SyntaxError, RecursionError and MemoryError of ast.parse are all contained
+        return True
 
 
 @contract("src/linters/lbyl/python_analyzer.py::_parse_python_code", props=["C11"], types=dict(code=Str), returns=PyNode,
-          raises=list(PARSER_LIMITS))
+          raises=[])
 class LbylParsePythonCode:
-    def on_raise_no_analysis_is_abandoned(exc_class):
-        return False
-
-    def on_raise_only_parser_resource_limits(exc_class):
-        return exc_class in PARSER_LIMITS
+    def ensures_total(result):
+        # raise set [] is exact: SyntaxError, RecursionError and MemoryError of ast.parse are all contained
+        return True
 
     def ensures_blank_source_is_not_parsed(code, result):
         return implies(code == "", result is None)
 
 
 @contract("src/linters/stateless_class/python_analyzer.py::analyze_code", props=["C11"],
-          types=dict(code=Str, min_methods=Int), returns=SeqOf(Rec("ClassInfoAny")), raises=list(PARSER_LIMITS))
+          types=dict(code=Str, min_methods=Int), returns=SeqOf(Rec("ClassInfoAny")), raises=[])
 class StatelessAnalyzeCode:
-    def on_raise_no_analysis_is_abandoned(exc_class):
-        return False
-
-    def on_raise_only_parser_resource_limits(exc_class):
-        return exc_class in PARSER_LIMITS
+    def ensures_total(result):
+        # raise set [] is exact: SyntaxError, RecursionError and MemoryError of ast.parse are all contained
+        return True
 
 
 # ================================================================== linter_utils: total helpers on the lint context
